@@ -483,7 +483,10 @@ class Array(metaclass=MetaArray):
             )
             coffset += 8 * len(header)
         if not cls._is_static_type:
-            Int64._array_to_buffer(buffer, coffset, info.offsets)
+            # the table of item offsets follows the memory order of the array
+            Int64._array_to_buffer(
+                buffer, coffset, info.offsets.transpose(info.order)
+            )
             coffset += 8 * len(info.offsets)
         if hasattr(cls._itemtype, "_dtype") and hasattr(
             value, "dtype"
